@@ -8,4 +8,6 @@ Extraction "model_doc.ml"
   WithDefaults.should_print
   XmlDoc.xml_print XmlDoc.xml_parse XmlDoc.prune XmlDoc.clear_dflt XmlDoc.sel_all
   XmlDoc.std_xml_content XmlDoc.to_generic
-  JsonDoc.json_print JsonDoc.json_parse JsonDoc.json_tree JsonDoc.json_doc JsonDoc.std_json_value.
+  XmlDoc.tabs_okb XmlDoc.docb XmlDoc.lexableb XmlDoc.std_valb
+  JsonDoc.json_print JsonDoc.json_parse JsonDoc.json_tree JsonDoc.json_doc JsonDoc.std_json_value
+  JsonDoc.jdocb JsonDoc.jlexb JsonDoc.nonulb.
